@@ -917,3 +917,12 @@ Proof.
   - destruct (n_role n); try (inversion Hs; subst; contradiction).
     unfold leader_sync_done in Hs. destruct (complete_writes _ _ _). inversion Hs; subst n' o; cbn in Hin; contradiction.
 Qed.
+
+(* Truncate is only legal in status FENCED: a follower controller in any other status refuses it and nothing changes
+   (in particular nothing it has acknowledged while following can be cut by a repeated or late Truncate). *)
+Lemma truncate_refused_unless_fenced : forall c n t h, n_role n = RFollower -> n_status n <> Fenced ->
+  step c n (TruncateReq t h) = (n, out (RErr EInvalidStatus)).
+Proof.
+  intros c n t h Hr Hs. cbn [step]. unfold get_or_create_follower. rewrite Hr. unfold follower_truncate.
+  destruct (n_status n); try reflexivity. congruence.
+Qed.
